@@ -152,7 +152,6 @@ def main():
         cases = gen_cases(ck)
     out = sg.run_cases(ck, cases, step, limit)
     n_viol = 0
-    waited = 0
     for c, r, code in out:
         msg = fairness_violation(c, r) if "owner" in c else None
         if msg and n_viol < 5:
@@ -161,7 +160,8 @@ def main():
                          {"case": c, "impl_trace": sg.pretty_trace(r), "script": sg.script_summary(c["script"]),
                           "service_order": [(t, c["owner"].get(str(t))) for t in sg.invocations(r)]},
                          tag="c%d" % c["id"])
-        elif code and n_viol < 5:
+    for c, r, code in out:
+        if code and n_viol < 5:
             n_viol += 1
             sg.report_model_mismatch(ck, c, r, step, limit, " (service order satisfies the fairness bound)")
     sg.coverage(ck, cases, out, step, limit, {
